@@ -24,6 +24,9 @@ def gen_proposal(rng, num, proto=None, spi_size=None):
     if spi_size is None:
         spi_size = rng.choice([0, 8] if proto == 1 else [4, 4, 0])
     trs = [gen_transform(rng) for _ in range(rng.randrange(1, 9))]
+    if rng.random() < 0.2:
+        # a transform named twice (a list merged from two sources): legal on the wire, and the repeated one may be the last
+        trs.insert(rng.randrange(len(trs) + 1), dict(trs[-1] if rng.random() < 0.6 else rng.choice(trs)))
     return {'num': num, 'proto': proto, 'spi': rb(rng, spi_size), 'transforms': trs}
 
 
@@ -258,3 +261,61 @@ def declared_delete_spis(data, first, depth=0):
             break
         ptype = nxt
     return total
+
+
+# ------------------------------------------------------------------ forgeries that collide with a given datagram under NON-cryptographic digests
+_CRC_T = []
+for _i in range(256):
+    _c = _i
+    for _ in range(8):
+        _c = (_c >> 1) ^ 0xEDB88320 if _c & 1 else _c >> 1
+    _CRC_T.append(_c)
+_CRC_REV = {t >> 24: i for i, t in enumerate(_CRC_T)}
+
+
+def crc32_patch(prefix, target):
+    """Four octets X such that zlib.crc32(prefix + X) == target (a CRC is linear: any prefix can be completed to any value)."""
+    import zlib
+    want = target ^ 0xFFFFFFFF
+    idx = []
+    w = want
+    for _ in range(4):
+        i = _CRC_REV[w >> 24]
+        idx.append(i)
+        w = ((w ^ _CRC_T[i]) << 8) & 0xFFFFFFFF
+    state = zlib.crc32(prefix) ^ 0xFFFFFFFF
+    out = bytearray()
+    for i in reversed(idx):
+        out.append((state ^ i) & 0xFF)
+        state = (state >> 8) ^ _CRC_T[i]
+    x = bytes(out)
+    assert zlib.crc32(prefix + x) == target
+    return x
+
+
+def digest_collisions(base, forged_prefix):
+    """(name, datagram) pairs: datagrams that start with `forged_prefix` (the forger's content) and agree with `base` (an authentic datagram the
+    forger saw) under a fingerprint an implementation might use to recognise "the same datagram again" instead of verifying it."""
+    import zlib
+    out = [('crc32', forged_prefix + crc32_patch(forged_prefix, zlib.crc32(base)))]
+    # same sum of octets (mod 2^32) and same length class
+    diff = (sum(base) - sum(forged_prefix)) % 2 ** 32
+    pad = bytearray()
+    while diff > 0 and len(pad) < 4096:
+        pad.append(min(255, diff))
+        diff -= pad[-1]
+    if diff == 0:
+        out.append(('octet-sum', forged_prefix + bytes(pad)))
+    # same XOR of all octets
+    x = 0
+    for b in base:
+        x ^= b
+    y = 0
+    for b in forged_prefix:
+        y ^= b
+    out.append(('octet-xor', forged_prefix + bytes([x ^ y])))
+    # same length and same last 32 octets (a fingerprint made of the checksum field alone)
+    if len(base) >= len(forged_prefix) + 32:
+        out.append(('same-length-and-tail', forged_prefix + bytes(len(base) - len(forged_prefix) - 32) + base[-32:]))
+    # same first 48 octets except the Message ID / flags the forger wants, same length
+    return out
